@@ -1,6 +1,6 @@
 use crate::{hash_path, user_forc_directory};
 use std::{
-    fs::{create_dir_all, read_dir, remove_file, File},
+    fs::{create_dir_all, read_dir, remove_file, rename, File},
     io::{self, Read, Write},
     path::{Path, PathBuf},
 };
@@ -140,15 +140,33 @@ impl PidFileLocking {
             create_dir_all(dir)?;
         }
 
-        #[cfg(fuellabs_sway_verif)]
-        verif_step("lock.create", &self.0);
-        let mut fs = File::create(&self.0)?;
-        #[cfg(fuellabs_sway_verif)]
-        verif_step("lock.write", &self.0);
-        fs.write_all(std::process::id().to_string().as_bytes())?;
-        fs.sync_all()?;
-        fs.flush()?;
-        Ok(())
+        // Publish the lock file atomically: write the PID to a temporary file in the same
+        // directory and rename it into place. Creating the lock file in place leaves it empty
+        // until the PID is written; any other process running `cleanup_stale_files` in that
+        // window removes the (unparsable) file, the PID is then written to an unlinked file and
+        // the lock is silently lost while its owner is alive. The temporary name carries the PID
+        // (so it is private to this process) and does not end in `.lock` (so it is never taken
+        // for a lock file).
+        let pid = std::process::id();
+        let mut tmp_name = self.0.file_name().unwrap_or_default().to_os_string();
+        tmp_name.push(format!(".{pid}.tmp"));
+        let tmp = self.0.with_file_name(tmp_name);
+        let publish = || -> io::Result<()> {
+            #[cfg(fuellabs_sway_verif)]
+            verif_step("lock.create", &self.0);
+            let mut fs = File::create(&tmp)?;
+            #[cfg(fuellabs_sway_verif)]
+            verif_step("lock.write", &self.0);
+            fs.write_all(pid.to_string().as_bytes())?;
+            fs.sync_all()?;
+            fs.flush()?;
+            drop(fs);
+            rename(&tmp, &self.0)
+        };
+        publish().map_err(|e| {
+            let _ = remove_file(&tmp);
+            e
+        })
     }
 
     /// Cleans up all stale lock files in the .lsp-locks directory
